@@ -1,4 +1,5 @@
 import Crv.Proofs.ReaderRoundTrip
+import Crv.Proofs.Skeleton
 import Crv.Props.C06
 import Crv.Props.C07
 /-!
@@ -42,5 +43,15 @@ theorem one_event_per_entry (O : Oracle) (d : Doc) (oid : List Nat) (h : HashAlg
   simp [List.filter_append, List.filter_map, Function.comp_def]
 
 example : (81937 : Nat) = 81920 + 17 := rfl
+
+/-- The hand-written `Reader` model this property rests on was transcribed from exactly these sources: the fingerprints are
+recomputed from /repo on every run (tools/extract/skeleton.go), so any change to one of the functions breaks this obligation. -/
+theorem reader_sources_as_transcribed : Crv.Generated.skeletonReader = Crv.Skeleton.expectedReader :=
+  Crv.Skeleton.reader_sources_as_transcribed
+
+/-- The hand-written `Chunk` model this property rests on was transcribed from exactly these sources: the fingerprints are
+recomputed from /repo on every run (tools/extract/skeleton.go), so any change to one of the functions breaks this obligation. -/
+theorem chunk_sources_as_transcribed : Crv.Generated.skeletonChunk = Crv.Skeleton.expectedChunk :=
+  Crv.Skeleton.chunk_sources_as_transcribed
 
 end Crv.Props.C17
